@@ -138,14 +138,20 @@ def two_failures(storage: str, entry: str, cls: str, args: list, shared: bool) -
                                  "argskw": True, "shared": shared}
     build.reset_log()
     tmp = tempfile.mkdtemp(prefix="pfverif_c13t_")
-    ex = ThreadPoolExecutor(3) if entry == "thread" else None
+    ex = None
     evs: list[dict] = []
     try:
         with contextlib.redirect_stdout(io.StringIO()):
             pl = build.make_pipeline(pdesc)
         for run, inputs in enumerate((in1, in2)):
+            # a pool of its own per run, drained before the run's events are collected: elements that were still running
+            # when map raised belong to THIS run
+            ex = ThreadPoolExecutor(3) if entry == "thread" else None
             e, res = pmap.do_map(pl, pdesc, pmap.inputs_to_py(inputs, {"a": "list"}), run_folder=f"{tmp}/r{run}", storage=storage,
-                                 parallel=ex is not None, executor=ex, cleanup=True, load=False)
+                                 parallel=ex is not None, executor=ex, cleanup=True, load=False,
+                                 settle=(lambda ex=ex: ex.shutdown(wait=True)) if ex is not None else None)
+            if ex is not None:
+                ex.shutdown(wait=True)
             if run:
                 for x in e:
                     if x["e"] in ("begin", "reject"):
